@@ -46,6 +46,16 @@ class Registry:
             sts = m.assigns.get(nm)
             if sts and isinstance(sts[-1], (ast.Assign, ast.AnnAssign)) and isinstance(sts[-1].value, ast.Constant) and isinstance(sts[-1].value.value, str):
                 return sts[-1].value.value, sts[-1]
+            # `name = TEMPLATE.format(a='x', b='y')` with a module-level string TEMPLATE and constant string keywords: folded
+            v = sts[-1].value if sts and isinstance(sts[-1], (ast.Assign, ast.AnnAssign)) else None
+            if isinstance(v, ast.Call) and isinstance(v.func, ast.Attribute) and v.func.attr == "format" and isinstance(v.func.value, ast.Name) \
+                    and not v.args and v.keywords and all(k.arg and isinstance(k.value, ast.Constant) and isinstance(k.value.value, str) for k in v.keywords):
+                base = self.module_string(v.func.value.id) if v.func.value.id != name else None
+                if base is not None:
+                    try:
+                        return base[0].format(**{k.arg: k.value.value for k in v.keywords}), sts[-1]
+                    except (KeyError, IndexError, ValueError):
+                        return None
             imp = m.imports.get(nm)
             if not imp or imp[1] in (None, "*"):
                 return None
